@@ -86,7 +86,7 @@ IApply(force) ==
         /\ iall' = IF enable THEN lim ELSE Events
         /\ last' = [a |-> "apply", arg |-> <<force>>, expected |-> Expected,
                     required |-> Required, all |-> iall']
-        /\ UNCHANGED <<inst, ranges, polys, pver, pinv, removeInvalid, enable,
+        /\ UNCHANGED <<inst, extra, ranges, polys, pver, pinv, removeInvalid, enable,
                        limit, manual, memo>>
 
 ImplNext == IEdit \/ IReset \/ \E fc \in BOOLEAN : IApply(fc)
